@@ -59,6 +59,12 @@ func R24(pkgs ...string) func(p *core.Prog) *core.Result {
 			effectBeforeCollect(p, r, in)
 			resumeMatch(p, r, in)
 			indexTranslation(p, r, in)
+			valuelessArm(p, r, in)
+			consumeExamined(p, r, in)
+			headOfCollected(p, r, in)
+			feedAll(p, r, in)
+			markerSign(p, r, in)
+			indefNoLength(p, r, in)
 		}
 		if in["enc"] {
 			if in["json"] {
@@ -1671,4 +1677,991 @@ func refValueParity(p *core.Prog, r *core.Result, in map[string]bool) {
 		}
 	}
 	r.Floor("ref_value_pairs", n, 2*len([]string{"json", "cborl", "ubjson"}))
+}
+
+
+// ---- (i) VALUELESS-ARM ----
+//
+// The value dispatcher of a parser may have an arm that consumes input without
+// delivering or starting a value (ubjson: the no-op marker N). A caller that
+// has already spent an element of an announced count on the value, or that
+// stands behind an object key, must not reach the dispatcher with that
+// marker: the container would hold fewer elements than it announced, the key
+// would get no value. Decided as: which marker selects the valueless arm is
+// derived from the dispatcher and the marker table; every call of the
+// dispatcher in a function that emits keys, or behind a countdown (x = x - 1 on
+// parser state) on the same path, is behind a test that excludes that marker
+// for the same chunk.
+
+type vlState struct {
+	effect bool
+	sliced valueSet // values that are x[c:] with c >= 1 on this path: input was consumed
+	isnil  valueSet
+	eqs    stringSet // "<value id>=<const>" established by taken == branches
+}
+type vlClient struct {
+	fn        *ssa.Function
+	num       *valueNumbering
+	valueless []stringSet
+}
+
+func (k *vlClient) Key(s vlState) string {
+	return fmt.Sprintf("%v|%s|%s|%s", s.effect, s.isnil.key(), s.eqs.key(), s.sliced.key())
+}
+func (k *vlClient) Phis(s vlState, blk *ssa.BasicBlock, pred int) vlState {
+	type upd struct {
+		id     int
+		nil    bool
+		sliced bool
+	}
+	var ups []upd
+	for _, in := range blk.Instrs {
+		phi, ok := in.(*ssa.Phi)
+		if !ok {
+			break
+		}
+		if pred < 0 || pred >= len(phi.Edges) {
+			continue
+		}
+		e := phi.Edges[pred]
+		ups = append(ups, upd{k.num.id(phi), isNilConst(e) || s.isnil.has(k.num.id(e)), s.sliced.has(k.num.id(e))})
+	}
+	for _, u := range ups {
+		s.isnil, s.sliced = s.isnil.without(u.id), s.sliced.without(u.id)
+		if u.nil {
+			s.isnil = s.isnil.with(u.id)
+		}
+		if u.sliced {
+			s.sliced = s.sliced.with(u.id)
+		}
+	}
+	return s
+}
+func (k *vlClient) Instr(s vlState, in ssa.Instruction) (vlState, bool, []vlState) {
+	if sl, ok := in.(*ssa.Slice); ok && sl.Low != nil && isByteSlice(sl.X.Type()) {
+		if c, ok := constIntVal(sl.Low); ok && c >= 1 {
+			s.sliced = s.sliced.with(k.num.id(sl))
+		}
+	}
+	if c, ok := in.(ssa.CallInstruction); ok {
+		cc := c.Common()
+		if cc.IsInvoke() {
+			s.effect = true
+		} else if sc := cc.StaticCallee(); sc != nil && sc.Signature.Recv() != nil && len(cc.Args) > 0 && len(k.fn.Params) > 0 && (cc.Args[0] == ssa.Value(k.fn.Params[0]) || rootedAt(cc.Args[0], k.fn.Params[0])) {
+			s.effect = true // a method of the parser or of one of its stacks: pushes the value's state, reports it, ...
+		} else if sc == nil {
+			if _, isB := cc.Value.(*ssa.Builtin); !isB {
+				s.effect = true
+			}
+		}
+	}
+	if st, ok := in.(*ssa.Store); ok && len(k.fn.Params) > 0 && rootedAt(st.Addr, k.fn.Params[0]) {
+		s.effect = true
+	}
+	return s, true, nil
+}
+func (k *vlClient) Branch(s vlState, cond ssa.Value, outcome bool) (vlState, bool) {
+	if bo, ok := cond.(*ssa.BinOp); ok && bo.Op == token.EQL && outcome {
+		if c, ok := constIntVal(bo.Y); ok {
+			s.eqs = s.eqs.with(fmt.Sprintf("%d=%d", k.num.id(bo.X), c))
+		}
+	}
+	if x, trueMeansNil, ok := nilTest(cond); ok && isErrorType(x.Type()) && outcome == trueMeansNil {
+		s.isnil = s.isnil.with(k.num.id(x))
+	}
+	return s, true
+}
+func (k *vlClient) Return(s vlState, ret *ssa.Return) {
+	ei := errResultIndex(k.fn.Signature)
+	if ei < 0 || s.effect {
+		return
+	}
+	rv := ret.Results[ei]
+	consumed := false
+	for _, res := range ret.Results {
+		if isByteSlice(res.Type()) && s.sliced.has(k.num.id(res)) {
+			consumed = true
+		}
+	}
+	if consumed && (isNilConst(rv) || s.isnil.has(k.num.id(rv))) {
+		k.valueless = append(k.valueless, s.eqs)
+	}
+}
+
+type vcState struct {
+	counted, excluded bool
+	bt, bf            valueSet
+}
+type vcClient struct {
+	num      *valueNumbering
+	p        *core.Prog
+	fn       *ssa.Function
+	disp     *ssa.Function
+	markers  map[int64]bool
+	isObject bool
+	bad      map[string]string
+	sites    int
+}
+
+func (k *vcClient) Key(s vcState) string {
+	return fmt.Sprintf("%v|%v|%s|%s", s.counted, s.excluded, s.bt.key(), s.bf.key())
+}
+func (k *vcClient) Phis(s vcState, _ *ssa.BasicBlock, _ int) vcState { return s }
+func (k *vcClient) Return(vcState, *ssa.Return)                       {}
+func (k *vcClient) Instr(s vcState, in ssa.Instruction) (vcState, bool, []vcState) {
+	switch x := in.(type) {
+	case *ssa.Store:
+		if bo, ok := x.Val.(*ssa.BinOp); ok && bo.Op == token.SUB && isIntConst(bo.Y, 1) && len(k.fn.Params) > 0 && rootedAt(x.Addr, k.fn.Params[0]) {
+			if ld, ok := bo.X.(*ssa.UnOp); ok && ld.Op == token.MUL && addrKey(ld.X) != "" && addrKey(ld.X) == addrKey(x.Addr) {
+				s.counted = true
+			}
+		}
+	case *ssa.Call:
+		if x.Common().StaticCallee() != k.disp {
+			break
+		}
+		k.sites++
+		if (s.counted || k.isObject) && !s.excluded {
+			why := "behind an object key"
+			if s.counted {
+				why = "after an element of the announced count was spent on it"
+			}
+			if k.bad == nil {
+				k.bad = map[string]string{}
+			}
+			k.bad[k.p.Pos(x.Pos())] = why
+		}
+	}
+	return s, true, nil
+}
+func (k *vcClient) Branch(s vcState, cond ssa.Value, outcome bool) (vcState, bool) {
+	for {
+		u, ok := cond.(*ssa.UnOp)
+		if !ok || u.Op != token.NOT {
+			break
+		}
+		cond, outcome = u.X, !outcome
+	}
+	// the same boolean (a flag parameter, say) cannot be true at one test and false at the next
+	if _, isPrm := cond.(*ssa.Parameter); isPrm {
+		id := k.num.id(cond)
+		if s.bt.has(id) && !outcome || s.bf.has(id) && outcome {
+			return s, false
+		}
+		if outcome {
+			s.bt = s.bt.with(id)
+		} else {
+			s.bf = s.bf.with(id)
+		}
+	}
+	bo, ok := cond.(*ssa.BinOp)
+	if !ok || (bo.Op != token.EQL && bo.Op != token.NEQ) {
+		return s, true
+	}
+	for _, pr := range [][2]ssa.Value{{bo.X, bo.Y}, {bo.Y, bo.X}} {
+		c, ok := constIntVal(pr[1])
+		if !ok || !k.markers[c] {
+			continue
+		}
+		ld, ok := pr[0].(*ssa.UnOp)
+		if !ok || ld.Op != token.MUL {
+			continue
+		}
+		ia, ok := ld.X.(*ssa.IndexAddr)
+		if !ok || !isIntConst(ia.Index, 0) || !isByteSlice(ia.X.Type()) {
+			continue
+		}
+		notMarker := (bo.Op == token.EQL) != outcome
+		if notMarker {
+			s.excluded = true
+		}
+	}
+	return s, true
+}
+
+func valuelessArm(p *core.Prog, r *core.Result, in map[string]bool) {
+	n := 0
+	for _, pk := range []string{"json", "cborl", "ubjson"} {
+		if !in[pk] {
+			continue
+		}
+		V := p.LookupFunc(pk, "(*Parser).stepValue")
+		if V == nil || V.Blocks == nil {
+			continue
+		}
+		n++
+		k := &vlClient{fn: V, num: newNumbering()}
+		if _, capped := WalkPaths[vlState](k, V.Blocks[0], 0, vlState{}, 200000, nil); capped {
+			r.Undecided(".VALUELESS-ARM", core.FuncKey(V), "state cap hit")
+			continue
+		}
+		vkey := core.FuncKey(V)
+		if len(k.valueless) == 0 {
+			r.Ok(".VALUELESS-ARM", p.Pos(V.Pos()), vkey+": every successful return delivered or started a value")
+			continue
+		}
+		// which marker selects the arm: a taken `x == K` with x a component of the marker table's result for b[0]
+		markers := map[int64]bool{}
+		for _, eqs := range k.valueless {
+			for _, e := range eqs.list() {
+				var id int
+				var c int64
+				fmt.Sscanf(e, "%d=%d", &id, &c)
+				if id >= len(k.num.rev) {
+					continue
+				}
+				v := k.num.rev[id]
+				if ld, ok := v.(*ssa.UnOp); ok && ld.Op == token.MUL {
+					if ia, ok := ld.X.(*ssa.IndexAddr); ok && isIntConst(ia.Index, 0) {
+						markers[c] = true // the arm is keyed on b[0] itself
+						continue
+					}
+				}
+				ref, ok := resolveComp(v, 0)
+				if !ok {
+					continue
+				}
+				F := ref.call.Common().StaticCallee()
+				if F == nil || F.Blocks == nil || len(F.Params) == 0 {
+					continue
+				}
+				for _, b := range F.Blocks {
+					ret, ok := b.Instrs[len(b.Instrs)-1].(*ssa.Return)
+					if !ok {
+						continue
+					}
+					cv, zero, ok := returnComponent(ret, ref.path)
+					if !ok || zero {
+						continue
+					}
+					if kc, ok := constIntVal(cv); !ok || kc != c {
+						continue
+					}
+					for d := b; d != nil && d.Idom() != nil; d = d.Idom() {
+						id := d.Idom()
+						iff, ok := id.Instrs[len(id.Instrs)-1].(*ssa.If)
+						if !ok || id.Succs[0] != d || len(d.Preds) != 1 {
+							continue
+						}
+						bo, ok := iff.Cond.(*ssa.BinOp)
+						if !ok || bo.Op != token.EQL {
+							continue
+						}
+						if _, isPrm := bo.X.(*ssa.Parameter); isPrm {
+							if m, ok := constIntVal(bo.Y); ok {
+								markers[m] = true
+							}
+						}
+					}
+				}
+			}
+		}
+		if len(markers) == 0 {
+			r.Undecided(".VALUELESS-ARM", vkey+"|marker", vkey+" has an arm that consumes input without delivering or starting a value, but the marker that selects it could not be derived")
+			continue
+		}
+		var ms []string
+		for m := range markers {
+			ms = append(ms, fmt.Sprintf("%#x", m))
+		}
+		sort.Strings(ms)
+		for _, g := range p.ModFuncs() {
+			if gp := core.FuncPkg(g); gp == nil || gp.Name() != pk || g.Blocks == nil || g == V {
+				continue
+			}
+			calls, isObject := false, false
+			for _, b := range g.Blocks {
+				for _, i := range b.Instrs {
+					if c, ok := i.(*ssa.Call); ok {
+						if c.Common().StaticCallee() == V {
+							calls = true
+						}
+						if c.Common().IsInvoke() && (c.Common().Method.Name() == "OnKey" || c.Common().Method.Name() == "OnKeyRef") {
+							isObject = true
+						}
+					}
+				}
+			}
+			if !calls {
+				continue
+			}
+			ck := &vcClient{num: newNumbering(), p: p, fn: g, disp: V, markers: markers, isObject: isObject}
+			_, capped := WalkPaths[vcState](ck, g.Blocks[0], 0, vcState{}, 200000, nil)
+			gkey := core.FuncKey(g)
+			switch {
+			case capped:
+				r.Undecided(".VALUELESS-ARM", gkey, "state cap hit")
+			case len(ck.bad) == 0:
+				r.Ok(".VALUELESS-ARM", p.Pos(g.Pos()), fmt.Sprintf("%s: the value dispatcher is not reached with the valueless marker (%s) behind a key or a spent count", gkey, strings.Join(ms, ",")))
+			default:
+				pos := sortedKeys(ck.bad)[0]
+				r.Fail(".VALUELESS-ARM", gkey+"|valueless", p.Pos(g.Pos()), fmt.Sprintf("%s calls %s at %s %s without excluding the marker %s, for which the dispatcher consumes the byte and delivers nothing: the container holds one element less than it announced, or the key gets no value - an accepted input yields a malformed event stream", gkey, vkey, pos, ck.bad[pos], strings.Join(ms, ",")), "")
+			}
+		}
+	}
+	r.Floor("value_dispatchers", n, 1)
+}
+
+
+// ---- (j) CONSUME-EXAMINED ----
+//
+// A step hands back a shorter chunk (consumes input) on a successful return
+// only on paths that looked at the bytes it consumes: indexed the chunk, or
+// passed (a slice of) it to a comparison, scan, collector or event. A literal
+// whose first bytes arrive in one chunk and are merely counted, to be compared
+// "when the token is complete", accepts a misspelling that a whole-buffer parse
+// rejects.
+
+type ceState struct {
+	examined bool
+	isnil    valueSet
+}
+type ceClient struct {
+	p     *core.Prog
+	fn    *ssa.Function
+	sf    *stepFn
+	num   *valueNumbering
+	bad   string
+	sites int
+}
+
+func (k *ceClient) Key(s ceState) string { return fmt.Sprintf("%v|%s", s.examined, s.isnil.key()) }
+func (k *ceClient) Phis(s ceState, blk *ssa.BasicBlock, pred int) ceState {
+	type upd struct {
+		id  int
+		nil bool
+	}
+	var ups []upd
+	for _, in := range blk.Instrs {
+		phi, ok := in.(*ssa.Phi)
+		if !ok {
+			break
+		}
+		if pred < 0 || pred >= len(phi.Edges) {
+			continue
+		}
+		e := phi.Edges[pred]
+		ups = append(ups, upd{k.num.id(phi), isNilConst(e) || s.isnil.has(k.num.id(e))})
+	}
+	for _, u := range ups {
+		s.isnil = s.isnil.without(u.id)
+		if u.nil {
+			s.isnil = s.isnil.with(u.id)
+		}
+	}
+	return s
+}
+func (k *ceClient) fromChunk(v ssa.Value) bool {
+	for _, o := range origins(v) {
+		if o == ssa.Value(k.sf.chunk) {
+			return true
+		}
+	}
+	return false
+}
+func (k *ceClient) Instr(s ceState, in ssa.Instruction) (ceState, bool, []ceState) {
+	switch x := in.(type) {
+	case *ssa.IndexAddr:
+		if k.fromChunk(x.X) {
+			s.examined = true
+		}
+	case *ssa.Index:
+		if k.fromChunk(x.X) {
+			s.examined = true
+		}
+	case *ssa.Range, *ssa.Next:
+		s.examined = true
+	case *ssa.Slice:
+		// a window x[:h] over the chunk that is indexed, ranged over or handed on: the bytes are processed through
+		// it, even on the path on which the window happens to be empty
+		if x.High != nil && k.fromChunk(x.X) && x.Referrers() != nil {
+			for _, rf := range *x.Referrers() {
+				switch y := rf.(type) {
+				case *ssa.IndexAddr, *ssa.Index, *ssa.Range:
+					s.examined = true
+				case ssa.CallInstruction:
+					if bi, ok := y.Common().Value.(*ssa.Builtin); !ok || bi.Name() != "cap" {
+						s.examined = true
+					}
+				}
+			}
+		}
+	case ssa.CallInstruction:
+		cc := x.Common()
+		if bi, ok := cc.Value.(*ssa.Builtin); ok && (bi.Name() == "len" || bi.Name() == "cap") {
+			break
+		}
+		for _, a := range cc.Args {
+			if (isByteSlice(a.Type()) || isStringOrBytes(a.Type())) && k.fromChunk(a) {
+				s.examined = true
+			}
+		}
+	}
+	return s, true, nil
+}
+func (k *ceClient) Branch(s ceState, cond ssa.Value, outcome bool) (ceState, bool) {
+	if x, trueMeansNil, ok := nilTest(cond); ok && isErrorType(x.Type()) && outcome == trueMeansNil {
+		s.isnil = s.isnil.with(k.num.id(x))
+	}
+	return s, true
+}
+func (k *ceClient) Return(s ceState, ret *ssa.Return) {
+	if k.sf.errIdx >= 0 {
+		rv := ret.Results[k.sf.errIdx]
+		if definitelyNonNilError(rv) {
+			return
+		}
+	}
+	rest := ret.Results[k.sf.restIdx]
+	sl, ok := rest.(*ssa.Slice)
+	if !ok || sl.Low == nil || !k.fromChunk(sl.X) {
+		return
+	}
+	if _, ok := constIntVal(sl.Low); ok {
+		return // a fixed number of bytes (a marker, a bracket): the caller or the dispatcher looked at them
+	}
+	k.sites++
+	if !s.examined && k.boundedScan(sl.Low) {
+		return // the bytes b[0..n) are looked at by a loop `i < n` over the chunk; on this path n happens to be 0
+	}
+	if !s.examined {
+		k.bad = "hands back the chunk shortened (" + k.p.Pos(token.Pos(instrPos(ret))) + ") on a path that never looked at the bytes it consumes"
+	}
+}
+
+// boundedScan: the function indexes the chunk with an index that is compared
+// `< n` for the very n by which the chunk is shortened.
+func (k *ceClient) boundedScan(n ssa.Value) bool {
+	for _, b := range k.fn.Blocks {
+		for _, in := range b.Instrs {
+			ia, ok := in.(*ssa.IndexAddr)
+			if !ok || !k.fromChunk(ia.X) || ia.Index.Referrers() == nil {
+				continue
+			}
+			for _, rf := range *ia.Index.Referrers() {
+				if bo, ok := rf.(*ssa.BinOp); ok && bo.Op == token.LSS && bo.X == ia.Index && bo.Y == n {
+					return true
+				}
+			}
+		}
+	}
+	return false
+}
+
+func consumeExamined(p *core.Prog, r *core.Result, in map[string]bool) {
+	n := 0
+	for _, pk := range []string{"json", "cborl", "ubjson"} {
+		if !in[pk] {
+			continue
+		}
+		fam, err := buildFamily(p, pk)
+		if err != nil {
+			continue
+		}
+		var fns []*ssa.Function
+		for f := range fam.steps {
+			fns = append(fns, f)
+		}
+		sort.Slice(fns, func(i, j int) bool { return fns[i].Pos() < fns[j].Pos() })
+		for _, f := range fns {
+			k := &ceClient{p: p, fn: f, sf: fam.steps[f], num: newNumbering()}
+			_, capped := WalkPaths[ceState](k, f.Blocks[0], 0, ceState{}, 200000, nil)
+			if capped || k.sites == 0 {
+				continue
+			}
+			n++
+			fkey := core.FuncKey(f)
+			if k.bad == "" {
+				r.Ok(".CONSUME-EXAMINED", p.Pos(f.Pos()), fkey+": input is consumed only on paths that looked at it")
+			} else {
+				r.Fail(".CONSUME-EXAMINED", fkey+"|unexamined", p.Pos(f.Pos()), fkey+" "+k.bad+": what these bytes are is decided, if at all, by a later chunk - the verdict depends on where the input was cut", "")
+			}
+		}
+	}
+	if in["json"] {
+		r.Floor("consuming_steps", n, 1)
+	}
+}
+
+
+// ---- (k) HEAD-OF-COLLECTED ----
+//
+// A multi-byte token that may be split across chunks is assembled by collect;
+// while bytes of it are parked, b[0] of the next chunk is NOT the token's first
+// byte. A step that indexes the very chunk value it then hands to collect
+// (to peek at the sign, say) reads the wrong byte after a resume - unless it
+// has established that nothing is parked.
+
+type hcState struct {
+	idx      valueSet // chunk values indexed while parked bytes were not excluded
+	bufEmpty bool
+	eqs      stringSet // "<value id>=<const>": the value was found equal to the constant on this path
+}
+type hcClient struct {
+	p       *core.Prog
+	fn      *ssa.Function
+	sf      *stepFn
+	fam     *parserFamily
+	num     *valueNumbering
+	bad     string
+	collect int
+}
+
+func (k *hcClient) Key(s hcState) string {
+	return fmt.Sprintf("%s|%v|%s", s.idx.key(), s.bufEmpty, s.eqs.key())
+}
+func (k *hcClient) Phis(s hcState, blk *ssa.BasicBlock, pred int) hcState {
+	type upd struct {
+		id int
+		on bool
+	}
+	var ups []upd
+	for _, in := range blk.Instrs {
+		phi, ok := in.(*ssa.Phi)
+		if !ok {
+			break
+		}
+		if pred < 0 || pred >= len(phi.Edges) || !isByteSlice(phi.Type()) {
+			continue
+		}
+		ups = append(ups, upd{k.num.id(phi), s.idx.has(k.num.id(phi.Edges[pred]))})
+	}
+	for _, u := range ups {
+		s.idx = s.idx.without(u.id)
+		if u.on {
+			s.idx = s.idx.with(u.id)
+		}
+	}
+	return s
+}
+func (k *hcClient) Instr(s hcState, in ssa.Instruction) (hcState, bool, []hcState) {
+	switch x := in.(type) {
+	case *ssa.IndexAddr:
+		if isByteSlice(x.X.Type()) && !s.bufEmpty {
+			for _, o := range origins(x.X) {
+				if o == ssa.Value(k.sf.chunk) {
+					s.idx = s.idx.with(k.num.id(x.X))
+				}
+			}
+		}
+	case *ssa.Call:
+		sc := x.Common().StaticCallee()
+		if sc == nil {
+			break
+		}
+		isCollect := sc == k.fam.collect
+		if !isCollect && sc.Blocks != nil {
+			// a thin wrapper: a step-shaped method whose first call is collect on its own chunk
+			if sf2 := k.fam.steps[sc]; sf2 != nil || strings.HasPrefix(core.FuncName(sc), "getUint") {
+				for _, b := range sc.Blocks {
+					for _, i2 := range b.Instrs {
+						if c2, ok := i2.(*ssa.Call); ok && c2.Common().StaticCallee() == k.fam.collect {
+							isCollect = strings.HasPrefix(core.FuncName(sc), "getUint")
+						}
+					}
+				}
+			}
+		}
+		if !isCollect {
+			break
+		}
+		k.collect++
+		for _, a := range x.Common().Args {
+			if isByteSlice(a.Type()) && s.idx.has(k.num.id(a)) {
+				k.bad = "indexes the chunk and then hands the same chunk to " + core.FuncName(sc) + " at " + k.p.Pos(x.Pos()) + " without having established that no bytes of the token are parked"
+			}
+		}
+	}
+	return s, true, nil
+}
+func (k *hcClient) Branch(s hcState, cond ssa.Value, outcome bool) (hcState, bool) {
+	for {
+		u, ok := cond.(*ssa.UnOp)
+		if !ok || u.Op != token.NOT {
+			break
+		}
+		cond, outcome = u.X, !outcome
+	}
+	// the dispatched step is one value: it cannot equal two different constants on one path
+	if bo, ok := cond.(*ssa.BinOp); ok && (bo.Op == token.EQL || bo.Op == token.NEQ) {
+		if c, ok := constIntVal(bo.Y); ok {
+			if _, isCall := bo.X.(*ssa.Call); !isCall {
+				id := k.num.id(bo.X)
+				isEq := (bo.Op == token.EQL) == outcome
+				pre := fmt.Sprintf("%d=", id)
+				for _, e := range s.eqs.list() {
+					if strings.HasPrefix(e, pre) {
+						known := e[len(pre):]
+						if isEq && known != fmt.Sprint(c) || !isEq && known == fmt.Sprint(c) {
+							return s, false
+						}
+					}
+				}
+				if isEq {
+					s.eqs = s.eqs.with(fmt.Sprintf("%d=%d", id, c))
+				}
+			}
+		}
+	}
+	bo, ok := cond.(*ssa.BinOp)
+	if !ok || !isIntConst(bo.Y, 0) {
+		return s, true
+	}
+	call, ok := bo.X.(*ssa.Call)
+	if !ok {
+		return s, true
+	}
+	if bi, ok := call.Common().Value.(*ssa.Builtin); !ok || bi.Name() != "len" {
+		return s, true
+	}
+	ld, ok := call.Common().Args[0].(*ssa.UnOp)
+	if !ok || ld.Op != token.MUL || !parkFields[k.fam.pkg][fieldOfReceiver(k.fn, ld.X)] {
+		return s, true
+	}
+	switch bo.Op {
+	case token.EQL, token.LEQ:
+		s.bufEmpty = outcome
+	case token.NEQ, token.GTR:
+		s.bufEmpty = !outcome
+	}
+	return s, true
+}
+func (k *hcClient) Return(hcState, *ssa.Return) {}
+
+func headOfCollected(p *core.Prog, r *core.Result, in map[string]bool) {
+	n := 0
+	for _, pk := range []string{"cborl", "ubjson"} {
+		if !in[pk] {
+			continue
+		}
+		fam, err := buildFamily(p, pk)
+		if err != nil || fam.collect == nil {
+			continue
+		}
+		var fns []*ssa.Function
+		for f := range fam.steps {
+			fns = append(fns, f)
+		}
+		sort.Slice(fns, func(i, j int) bool { return fns[i].Pos() < fns[j].Pos() })
+		for _, f := range fns {
+			k := &hcClient{p: p, fn: f, sf: fam.steps[f], fam: fam, num: newNumbering()}
+			_, capped := WalkPaths[hcState](k, f.Blocks[0], 0, hcState{}, 200000, nil)
+			if capped || k.collect == 0 {
+				continue
+			}
+			n++
+			fkey := core.FuncKey(f)
+			if k.bad == "" {
+				r.Ok(".HEAD-OF-COLLECTED", p.Pos(f.Pos()), fkey+": the chunk handed to the collector was not indexed before")
+			} else {
+				r.Fail(".HEAD-OF-COLLECTED", fkey+"|peek", p.Pos(f.Pos()), fkey+" "+k.bad+": when the token was split by an earlier chunk the byte it looks at is a later byte of the token (or of the next one), so the step decides differently depending on where the input was cut", "")
+			}
+		}
+	}
+	r.Floor("collecting_steps", n, 1)
+}
+
+
+// ---- (l) FEED-ALL ----
+//
+// feed reports success only when the whole chunk went through the machine:
+// every nil return is reached directly from the test that found the rest of
+// the chunk empty. Leaving the loop early ("nothing consumed, wait for more")
+// drops the rest of the chunk while Write still answers len(b), nil.
+
+type faState struct{ lastEmpty bool }
+type faClient struct {
+	fn  *ssa.Function
+	p   *core.Prog
+	bad string
+	n   int
+}
+
+func (k *faClient) Key(s faState) string                              { return fmt.Sprint(s.lastEmpty) }
+func (k *faClient) Phis(s faState, _ *ssa.BasicBlock, _ int) faState { return s }
+func (k *faClient) Instr(s faState, in ssa.Instruction) (faState, bool, []faState) {
+	return s, true, nil
+}
+func (k *faClient) Branch(s faState, cond ssa.Value, outcome bool) (faState, bool) {
+	for {
+		u, ok := cond.(*ssa.UnOp)
+		if !ok || u.Op != token.NOT {
+			break
+		}
+		cond, outcome = u.X, !outcome
+	}
+	s.lastEmpty = false
+	if bo, ok := cond.(*ssa.BinOp); ok && isIntConst(bo.Y, 0) {
+		if c, ok := bo.X.(*ssa.Call); ok {
+			if bi, ok := c.Common().Value.(*ssa.Builtin); ok && bi.Name() == "len" && isByteSlice(c.Common().Args[0].Type()) {
+				switch bo.Op {
+				case token.GTR, token.NEQ:
+					s.lastEmpty = !outcome
+				case token.EQL, token.LEQ:
+					s.lastEmpty = outcome
+				}
+			}
+		}
+	}
+	return s, true
+}
+func (k *faClient) Return(s faState, ret *ssa.Return) {
+	ei := errResultIndex(k.fn.Signature)
+	if ei < 0 || !isNilConst(ret.Results[ei]) {
+		return
+	}
+	k.n++
+	if !s.lastEmpty {
+		k.bad = "returns nil at " + k.p.Pos(token.Pos(instrPos(ret))) + " on a path whose last test was not the one that found the rest of the chunk empty"
+	}
+}
+
+func feedAll(p *core.Prog, r *core.Result, in map[string]bool) {
+	n := 0
+	for _, pk := range []string{"json", "cborl", "ubjson"} {
+		if !in[pk] {
+			continue
+		}
+		f := p.LookupFunc(pk, "(*Parser).feed")
+		if f == nil || f.Blocks == nil {
+			continue
+		}
+		k := &faClient{fn: f, p: p}
+		if _, capped := WalkPaths[faState](k, f.Blocks[0], 0, faState{}, 100000, nil); capped || k.n == 0 {
+			continue
+		}
+		n++
+		fkey := core.FuncKey(f)
+		if k.bad == "" {
+			r.Ok(".FEED-ALL", p.Pos(f.Pos()), fkey+": success is reported only when the rest of the chunk is empty")
+		} else {
+			r.Fail(".FEED-ALL", fkey+"|early", p.Pos(f.Pos()), fkey+" "+k.bad+": the unprocessed rest of the chunk is dropped while Write reports the whole chunk as written - the next document on the same parser starts in the middle", "")
+		}
+	}
+	r.Floor("feed_loops", n, 1)
+}
+
+// ---- (m) MARKER-SIGN (ubjson) ----
+//
+// The payload byte of the unsigned 8-bit marker is not converted through int8:
+// lengths and values 128..255 written with U would turn negative.
+
+type msgState struct{ isU bool }
+type msgClient struct {
+	fn   *ssa.Function
+	p    *core.Prog
+	uval int64
+	bad  string
+	arms int
+}
+
+func (k *msgClient) Key(s msgState) string                               { return fmt.Sprint(s.isU) }
+func (k *msgClient) Phis(s msgState, _ *ssa.BasicBlock, _ int) msgState { return s }
+func (k *msgClient) Return(msgState, *ssa.Return)                       {}
+func (k *msgClient) Branch(s msgState, cond ssa.Value, outcome bool) (msgState, bool) {
+	if bo, ok := cond.(*ssa.BinOp); ok && bo.Op == token.EQL {
+		if c, ok := constIntVal(bo.Y); ok && c == k.uval {
+			if bt, ok := bo.X.Type().Underlying().(*types.Basic); ok && bt.Kind() == types.Uint8 {
+				if outcome {
+					s.isU = true
+					k.arms++
+				}
+			}
+		}
+	}
+	return s, true
+}
+func (k *msgClient) Instr(s msgState, in ssa.Instruction) (msgState, bool, []msgState) {
+	if cv, ok := in.(*ssa.Convert); ok && s.isU {
+		if bt, ok := cv.Type().Underlying().(*types.Basic); ok && bt.Kind() == types.Int8 {
+			if ld, ok := cv.X.(*ssa.UnOp); ok && ld.Op == token.MUL {
+				if _, isIdx := ld.X.(*ssa.IndexAddr); isIdx {
+					k.bad = "converts the payload byte through int8 at " + k.p.Pos(cv.Pos()) + " on a path selected by the unsigned 8-bit marker"
+				}
+			}
+		}
+	}
+	return s, true, nil
+}
+
+func markerSign(p *core.Prog, r *core.Result, in map[string]bool) {
+	if !in["ubjson"] {
+		return
+	}
+	nc := p.Const("ubjson", "uint8Marker")
+	if nc == nil {
+		return
+	}
+	uval, _ := constIntVal(nc.Value)
+	n := 0
+	for _, f := range p.ModFuncs() {
+		if gp := core.FuncPkg(f); gp == nil || gp.Name() != "ubjson" || f.Blocks == nil || f.Signature.Recv() == nil {
+			continue
+		}
+		k := &msgClient{fn: f, p: p, uval: uval}
+		if _, capped := WalkPaths[msgState](k, f.Blocks[0], 0, msgState{}, 100000, nil); capped || k.arms == 0 {
+			continue
+		}
+		n++
+		fkey := core.FuncKey(f)
+		if k.bad == "" {
+			r.Ok(".MARKER-SIGN", p.Pos(f.Pos()), fkey+": the payload of the unsigned 8-bit marker is read unsigned")
+		} else {
+			r.Fail(".MARKER-SIGN", fkey+"|int8", p.Pos(f.Pos()), fkey+" "+k.bad+": values and lengths 128..255 written with U become negative (a valid document is refused with 'negative length', or a value changes sign)", "")
+		}
+	}
+	r.Floor("uint8_marker_arms", n, 1)
+}
+
+// ---- (n) INDEF-NO-LENGTH (cborl) ----
+//
+// An indefinite-length container owns no entry on the remaining-length stack
+// (nothing was pushed for it): the dispatcher arms of the indefinite states
+// (state & stIndef != 0) never pop that stack, directly or through a helper
+// shared with the definite containers - the entry they would remove is the
+// enclosing container's remaining count.
+func indefNoLength(p *core.Prog, r *core.Result, in map[string]bool) {
+	if !in["cborl"] {
+		return
+	}
+	fam, err := buildFamily(p, "cborl")
+	if err != nil {
+		return
+	}
+	disp := p.LookupFunc("cborl", "(*Parser).execStep")
+	indef := p.Const("cborl", "stIndef")
+	if disp == nil || indef == nil {
+		r.Undecided(".INDEF-NO-LENGTH", "cborl.execStep", "dispatcher or stIndef not found")
+		return
+	}
+	ibit, _ := constIntVal(indef.Value)
+	// arms: the calls in the blocks dominated by the true edge of `<dispatched state> == C`
+	ak := &armClient{fn: disp, recv: fam.recvNamed, arms: map[int64]map[*ssa.Function]bool{}}
+	for _, b := range disp.Blocks {
+		iff, ok := b.Instrs[len(b.Instrs)-1].(*ssa.If)
+		if !ok {
+			continue
+		}
+		bo, ok := iff.Cond.(*ssa.BinOp)
+		if !ok || bo.Op != token.EQL {
+			continue
+		}
+		c, ok := constIntVal(bo.Y)
+		if !ok {
+			continue
+		}
+		ld, ok := bo.X.(*ssa.UnOp)
+		if !ok || ld.Op != token.MUL || !rootedAt(ld.X, disp.Params[0]) {
+			continue
+		}
+		tb := b.Succs[0] // (an arm another arm falls through into has two predecessors; what it dominates is still its body)
+		if ak.arms[c] == nil {
+			ak.arms[c] = map[*ssa.Function]bool{}
+		}
+		for _, d := range disp.Blocks {
+			if d != tb && !tb.Dominates(d) {
+				continue
+			}
+			for _, in := range d.Instrs {
+				if call, ok := in.(ssa.CallInstruction); ok {
+					if sc := call.Common().StaticCallee(); sc != nil && sc.Signature.Recv() != nil {
+						ak.arms[c][sc] = true
+					}
+				}
+			}
+		}
+	}
+	// leaves: the function pops the state stack itself - what it does afterwards (reporting the completed value to
+	// the enclosing container, which may finish in turn) is the parent's bookkeeping
+	leaves := func(f *ssa.Function) bool {
+		for _, b := range f.Blocks {
+			for _, in := range b.Instrs {
+				if c, ok := in.(ssa.CallInstruction); ok {
+					if sc := c.Common().StaticCallee(); sc != nil && sc.Signature.Recv() != nil && core.FuncName(sc) == "pop" && namedOf(sc.Signature.Recv().Type()) != nil && core.TypeName(namedOf(sc.Signature.Recv().Type())) == "stateStack" {
+						return true
+					}
+				}
+			}
+		}
+		return false
+	}
+	var popsLen func(f *ssa.Function, depth int, seen map[*ssa.Function]bool) string
+	popsLen = func(f *ssa.Function, depth int, seen map[*ssa.Function]bool) string {
+		if f == nil || f.Blocks == nil || depth > 3 || seen[f] {
+			return ""
+		}
+		seen[f] = true
+		direct := false
+		for _, b := range f.Blocks {
+			for _, in := range b.Instrs {
+				if c, ok := in.(ssa.CallInstruction); ok {
+					if sc := c.Common().StaticCallee(); sc != nil && sc.Signature.Recv() != nil && core.FuncName(sc) == "pop" && namedOf(sc.Signature.Recv().Type()) != nil && core.TypeName(namedOf(sc.Signature.Recv().Type())) == "lengthStack" {
+						direct = true
+					}
+				}
+			}
+		}
+		if direct {
+			return core.FuncKey(f)
+		}
+		if leaves(f) {
+			return ""
+		}
+		for _, b := range f.Blocks {
+			for _, in := range b.Instrs {
+				c, ok := in.(ssa.CallInstruction)
+				if !ok {
+					continue
+				}
+				sc := c.Common().StaticCallee()
+				if sc == nil || sc.Signature.Recv() == nil {
+					continue
+				}
+				if core.FuncName(sc) == "pop" && namedOf(sc.Signature.Recv().Type()) != nil && core.TypeName(namedOf(sc.Signature.Recv().Type())) == "lengthStack" {
+					return core.FuncKey(f)
+				}
+				if namedOf(sc.Signature.Recv().Type()) == fam.recvNamed && core.FuncName(sc) != "stepValue" && core.FuncName(sc) != "execStep" {
+					if w := popsLen(sc, depth+1, seen); w != "" {
+						return w
+					}
+				}
+			}
+		}
+		return ""
+	}
+	n := 0
+	var states []int64
+	for st := range ak.arms {
+		states = append(states, st)
+	}
+	sort.Slice(states, func(i, j int) bool { return states[i] < states[j] })
+	for _, st := range states {
+		if mj := st & 0xe0; st&ibit == 0 || (mj != 0x80 && mj != 0xa0) {
+			continue // only arrays and maps have an indefinite form here
+		}
+		n++
+		bad := ""
+		for f := range ak.arms[st] {
+			if core.FuncName(f) == "stepValue" || core.FuncName(f) == "execStep" {
+				continue // the element itself: balanced by induction
+			}
+			if core.FuncName(f) == "pop" && namedOf(f.Signature.Recv().Type()) != nil && core.TypeName(namedOf(f.Signature.Recv().Type())) == "lengthStack" {
+				bad = "lengthStack.pop directly"
+				continue
+			}
+			if namedOf(f.Signature.Recv().Type()) != fam.recvNamed {
+				continue
+			}
+			if w := popsLen(f, 0, map[*ssa.Function]bool{}); w != "" {
+				bad = core.FuncKey(f) + " (pop in " + w + ")"
+			}
+		}
+		key := fmt.Sprintf("cborl.(*Parser).execStep|%#x", st)
+		if bad == "" {
+			r.Ok(".INDEF-NO-LENGTH", p.Pos(disp.Pos()), fmt.Sprintf("the arm of the indefinite state %#x never pops the remaining-length stack", st))
+		} else {
+			r.Fail(".INDEF-NO-LENGTH", key, p.Pos(disp.Pos()), fmt.Sprintf("the dispatcher arm of the indefinite-length state %#x calls %s, which pops the remaining-length stack: an indefinite container pushed no entry, so the enclosing definite container loses its remaining count and ends early", st, bad), "")
+		}
+	}
+	r.Floor("indefinite_arms", n, 2)
 }
